@@ -682,6 +682,9 @@ int file::Handle::close()
 
 size_t file::Handle::write(const char * buf, unsigned n)
 {
+  /* an empty value has no buffer (fwrite must not be given a null pointer) */
+  if (n == 0)
+    return 0;
   return ::fwrite(buf, 1, n, _file);
 }
 
